@@ -14,7 +14,7 @@ from typing import Any
 from mc import spec as S
 
 MAXC = {'O': 2, 'O5': 1, 'AX': 2, 'ZN': 2, 'LN': 1, 'CH': 3, 'CHS': 1, 'FR': 2, 'PA': 2, 'TO': 1, 'GR': 2, 'NF': 1,
-        'ZN2': 1, 'CP': 1, 'SP': 1, 'PT': 1, 'CA': 1, 'PR': 1, 'EQ': 1, 'WR': 1, 'AXY': 1}
+        'ZN2': 1, 'CP': 1, 'SP': 1, 'PT': 1, 'CA': 1, 'PR': 1, 'EQ': 1, 'WR': 1, 'AXY': 1, 'ZNE': 1}
 QUICK_EVENTS = ['O', 'O5', 'AX', 'ZN', 'LN', 'CH', 'CHS', 'FR', 'PA', 'TO', 'GR', 'NF', 'ZN2']
 THOROUGH_EVENTS = QUICK_EVENTS + ['CP', 'SP', 'PT', 'CA', 'PR', 'EQ', 'WR', 'AXY']
 
@@ -115,6 +115,8 @@ def to_spec(hist: list, complete: bool = True, vrl: int = 8192) -> dict:
             ops.append(S.op_add('axis', h('axis'), 'X' if e == 'AX' else 'Y', **kwf(axis_id='AID')))
         elif e == 'ZN':
             ops.append(S.op_add('zone', h('zone'), 'X'))
+        elif e == 'ZNE':
+            ops.append(S.op_add('zone', h('zone'), 'X', set_name=''))      # the empty string as set name
         elif e == 'ZN2':
             ops.append(S.op_add('zone', h('zone'), 'Y', origin_reference=origin_refs[1]))
         elif e == 'LN':
